@@ -24,6 +24,8 @@ type c13Outcome struct {
 type c13Cancel struct {
 	At    int    `json:"at"`    // 0-based ping index
 	Phase string `json:"phase"` // before | during | after
+	// Deadline: the parent context ends because its own deadline passes (Err() == context.DeadlineExceeded), not by cancel
+	Deadline bool `json:"deadline,omitempty"`
 }
 
 type c13Case struct {
@@ -38,7 +40,8 @@ var errC13Ping = errors.New("verif: scripted ping failure")
 type c13Mock struct {
 	mu           sync.Mutex
 	c            c13Case
-	cancelParent context.CancelFunc
+	cancelParent func()
+	parentErr    error
 	starts       []time.Time
 	blocked      []time.Duration
 	deadlines    []time.Time // deadline of the context each ping was given
@@ -84,7 +87,7 @@ func (m *c13Mock) Ping(ctx context.Context) error {
 		// like the real client: a request on a cancelled context fails with that context's error.
 		// (Only the parent's cancellation counts: the per-ping deadline must not turn an answered
 		// ping into a late one when the machine is busy - the script decides the outcome.)
-		return wrapError(context.Canceled, "waiting PINGRESP")
+		return wrapError(m.parentErr, "waiting PINGRESP")
 	}
 	if k >= len(c.Outcomes) {
 		// beyond the script: everything is answered; tell the harness that KeepAlive is still going
@@ -150,9 +153,19 @@ func (m *c13Mock) markCancel(k int) {
 }
 
 func c13Run(tb rapid.TB, c c13Case) {
-	ctx, cancel := context.WithCancel(context.Background())
+	var ctx context.Context
+	var cancel func()
+	parentErr := context.Canceled
+	if c.Cancel != nil && c.Cancel.Deadline {
+		// a parent whose own deadline passes at the scripted moment (a Context of the harness' own)
+		mc := &c19ManualCtx{done: make(chan struct{})}
+		ctx, cancel, parentErr = mc, mc.expire, context.DeadlineExceeded
+	} else {
+		cctx, cc := context.WithCancel(context.Background())
+		ctx, cancel = cctx, cc
+	}
 	defer cancel()
-	m := &c13Mock{c: c, cancelParent: cancel, cancelledAt: -1, extraPing: make(chan struct{}, 1), term: -1, overrun: make(chan int, 1)}
+	m := &c13Mock{c: c, cancelParent: cancel, parentErr: parentErr, cancelledAt: -1, extraPing: make(chan struct{}, 1), term: -1, overrun: make(chan int, 1)}
 	interval := time.Duration(c.IntervalUs) * time.Microsecond
 	timeout := time.Duration(c.TimeoutUs) * time.Microsecond
 	// reference: index of the terminating ping and the class of the result
@@ -232,8 +245,8 @@ func c13Run(tb rapid.TB, c c13Case) {
 	}
 	switch class {
 	case "cancel":
-		if !errors.Is(ret, context.Canceled) || errors.Is(ret, ErrPingTimeout) {
-			fail("parent context was cancelled, KeepAlive returned %v (want the context's error, not ErrPingTimeout)", ret)
+		if !errors.Is(ret, parentErr) || errors.Is(ret, ErrPingTimeout) {
+			fail("parent context ended (%v), KeepAlive returned %v (want the context's error, not ErrPingTimeout)", parentErr, ret)
 		}
 	case "timeout":
 		if !errors.Is(ret, ErrPingTimeout) {
@@ -266,6 +279,9 @@ func c13Run(tb rapid.TB, c c13Case) {
 	labels := []string{"ka:" + class}
 	if c.Cancel != nil {
 		labels = append(labels, "ka:cancel-"+c.Cancel.Phase)
+		if c.Cancel.Deadline {
+			labels = append(labels, "ka:parent-deadline")
+		}
 	}
 	nontrivial := len(starts) >= 3 || (c.Cancel != nil && c.Cancel.Phase == "during" && class == "cancel")
 	vCount("C13", nontrivial, vJSON(c), labels, func() interface{} { return c })
@@ -307,7 +323,7 @@ func c13Gen(rt *rapid.T) c13Case {
 		if phase == "during" {
 			c.TimeoutUs = 2000000 // the blocked ping ends by the cancel, not by the timeout
 		}
-		c.Cancel = &c13Cancel{At: at, Phase: phase}
+		c.Cancel = &c13Cancel{At: at, Phase: phase, Deadline: rapid.IntRange(0, 2).Draw(rt, "byDeadline") == 0}
 	}
 	return c
 }
